@@ -24,6 +24,10 @@ import (
 
 const cgRoot = "/sys/fs/cgroup"
 
+// a name cgroupfs refuses (EINVAL): returned by the random-name override once the forced names are
+// used up, so that a Random that keeps retrying ends with an error instead of creating groups for ever
+const noName = "no\nname"
+
 func main() {
 	hx.Register("idle", idleMain)
 	hx.Register("burn", burnMain)
@@ -306,6 +310,7 @@ func runCase(c kase, nonce string) (tr *trace, err error) {
 	l := newLayout(c.Ver, c.Ctls, nonce, c.Id)
 	setType(c.Ver)
 	tr = &trace{Id: c.Id, Kind: "hist", Ver: c.Ver, Ctls: l.ctls, Pids: []string{"p1", "p2"}, Ev: []event{}}
+	tr0 := tr
 	helpers := map[string]*helper{}
 	defer func() {
 		cgroup.SetRandomNameForVerif(nil)
@@ -313,7 +318,7 @@ func runCase(c kase, nonce string) (tr *trace, err error) {
 			h.stop()
 		}
 		for _, d := range l.dirs() {
-			tr.Left += len(d)
+			tr0.Left += len(d)
 		}
 		l.cleanup()
 	}()
@@ -356,7 +361,9 @@ func runCase(c kase, nonce string) (tr *trace, err error) {
 		var h cgroup.Cgroup
 		if o.Op != "top" && o.Op != "open" {
 			if o.H < 1 || o.H >= len(handles) {
-				return nil, fmt.Errorf("op %s on unknown handle %d", o.Op, o.H)
+				// an earlier call did not return the handle the history counts on (that call's
+				// event is already on record): the rest of the history cannot be performed
+				return tr, nil
 			}
 			h = handles[o.H]
 		}
@@ -380,7 +387,7 @@ func runCase(c kase, nonce string) (tr *trace, err error) {
 					i++
 					return o.Names[i-1]
 				}
-				return ""
+				return noName // the forced names are used up: make the call fail rather than loop
 			})
 			cg, err := h.Random("*")
 			cgroup.SetRandomNameForVerif(nil)
@@ -439,7 +446,7 @@ func sweepMain(args []string) error {
 	if len(args) != 1 || len(args[0]) < 4 {
 		return errors.New("usage: sweep nonce")
 	}
-	pat := "verif-c20-" + args[0] + "-*"
+	pat := "verif-c20-" + args[0] + "*"
 	var roots []string
 	ents, _ := os.ReadDir(cgRoot)
 	for _, e := range ents {
